@@ -16,7 +16,7 @@
 
 use super::c01_env::Env;
 use super::c01_proto as proto;
-use super::c01_tcp::{self as tcp, Chunk, Dual, DualName, Entry, Failure, Fault, Listen, Mode, Order, TcpCase, TcpStats};
+use super::c01_tcp::{self as tcp, Chunk, Dual, DualName, Entry, Failure, Fault, Listen, Mode, Order, Slow, SlowDir, TcpCase, TcpStats};
 use super::c01_udp::{self as udp, Topo, UKind, UdpCase, UdpStats};
 use crate::Args;
 use crate::report::Report;
@@ -100,6 +100,11 @@ const TIME_WAIT_HIGH: u64 = 20000;
 
 fn exec_once(env: &Env, case: &Case, deadline_s: u64, short_udp: bool) -> Outcome {
     let uniq = UNIQ.fetch_add(1, Ordering::SeqCst);
+    // (slow-reader scenarios: never less than their stall and the time allowed for the transfer)
+    let deadline_s = match case {
+        Case::Tcp(c) => c.deadline_s(deadline_s),
+        Case::Udp(_) => deadline_s,
+    };
     let workers = match case {
         Case::Tcp(c) => 2 + c.conc.min(2),
         Case::Udp(_) => 2,
@@ -188,6 +193,7 @@ struct Sums {
     /// (also counted in tcp_cases_clean / udp_cases_clean)
     v6_cases_clean: u64,
     after_half_cases_clean: u64,
+    slow_reader_cases_clean: u64,
     stray_cases_clean: u64,
     families_cases_clean: u64,
     dual_listener_cases_clean: u64,
@@ -214,6 +220,11 @@ fn add_tcp(a: &mut TcpStats, b: &TcpStats) {
     a.after_halfclose_filler_read += b.after_halfclose_filler_read;
     for (k, n) in &b.after_halfclose_end_kinds {
         *a.after_halfclose_end_kinds.entry(k.clone()).or_insert(0) += n;
+    }
+    a.slow_reader_backed_up += b.slow_reader_backed_up;
+    if b.slow_reader_written_at_first_read_max > 0 {
+        a.slow_reader_written_at_first_read_min = if a.slow_reader_written_at_first_read_max == 0 { b.slow_reader_written_at_first_read_min } else { a.slow_reader_written_at_first_read_min.min(b.slow_reader_written_at_first_read_min) };
+        a.slow_reader_written_at_first_read_max = a.slow_reader_written_at_first_read_max.max(b.slow_reader_written_at_first_read_max);
     }
 }
 
@@ -267,6 +278,13 @@ struct Bounds {
     after_half_lens: Vec<usize>,
     /// ... and the one (client->target = target->client) length that is run with 3 connections
     after_half_conc3_len: Option<usize>,
+    /// slow-reader sub-matrix: length of the payload the slow reader is sent ...
+    slow_reader_len: usize,
+    /// ... seconds it waits before its first read ...
+    slow_reader_stall_s: u64,
+    /// ... and the points (entry point, the writing end finishes with a half-close (true) / a close
+    /// of both directions (false), simultaneous connections), each run as a download and as an upload
+    slow_reader_points: Vec<(Entry, bool, usize)>,
 }
 
 /// payload lengths every dual-stack-listener topology is run with, in both tiers (a reply header
@@ -277,6 +295,9 @@ const DUAL_LISTENER_LENS: [usize; 4] = [0, 3, 32, 1400];
 const DUAL_ORDER: Order = Order::ClientHalf;
 const DUAL_CHUNK: Chunk = Chunk::One;
 const DUAL_CONC: usize = 1;
+
+/// pool threads added for the slow-reader sub-matrix (at most one per scenario of it)
+const SLOW_READER_THREADS: usize = 4;
 
 /// chunking and connections of the "close after half-close" sub-matrix
 const AFTER_HALF_CHUNK: Chunk = Chunk::One;
@@ -298,14 +319,28 @@ fn bounds(args: &Args) -> Bounds {
     b
 }
 
+/// Slow-reader points of the thorough tier: every entry point of `one` with 1 connection and both
+/// ways of finishing, every entry point of `two` also with 2 simultaneous connections (half-close).
+fn slow_points(one: &[Entry], two: &[Entry]) -> Vec<(Entry, bool, usize)> {
+    let mut v = Vec::new();
+    for &e in one {
+        v.push((e, true, 1));
+        v.push((e, false, 1));
+    }
+    for &e in two {
+        v.push((e, true, 2));
+    }
+    v
+}
+
 fn bounds_of_tier(args: &Args) -> Bounds {
     // the default receive window is 512 frames and the bridges read at most 8 KiB per frame, so
     // 512 * 8 KiB = 4 MiB is the least stream length that certainly needs a window update
     if args.thorough() {
-        Bounds { tcp_lens: vec![0, 1, 4099, 3 * 512 * 8192 + 5], tcp_len_window: None, slow_udp: true, concs: vec![1, 3, 5], udp_lens: vec![0, 1, 2, 3, 4, 5, 1400, 1472, 9000, 65000], deadline_s: 40, parallel: args.threads.clamp(1, 8), ipv6_loopback: tcp::ipv6_loopback(), tcp_v6_lens: vec![(1, 1), (70001, 70001)], udp_two_families: udp::ipv6_loopback(), udp_dual_listener_skip: (None, None), udp_dual_listener_lens: Vec::new(), udp_dual_listener_lens_3: Vec::new(), tcp_dual_lens: vec![(4099, 4099)], after_half_lens: vec![1, 3 * 512 * 8192 + 5], after_half_conc3_len: Some(4099) }
+        Bounds { tcp_lens: vec![0, 1, 4099, 3 * 512 * 8192 + 5], tcp_len_window: None, slow_udp: true, concs: vec![1, 3, 5], udp_lens: vec![0, 1, 2, 3, 4, 5, 1400, 1472, 9000, 65000], deadline_s: 40, parallel: args.threads.clamp(1, 8), ipv6_loopback: tcp::ipv6_loopback(), tcp_v6_lens: vec![(1, 1), (70001, 70001)], udp_two_families: udp::ipv6_loopback(), udp_dual_listener_skip: (None, None), udp_dual_listener_lens: Vec::new(), udp_dual_listener_lens_3: Vec::new(), tcp_dual_lens: vec![(4099, 4099)], after_half_lens: vec![1, 3 * 512 * 8192 + 5], after_half_conc3_len: Some(4099), slow_reader_len: 48 << 20, slow_reader_stall_s: 5, slow_reader_points: slow_points(&[Entry::TcpRemote, Entry::UnixRemote, Entry::Socks5Ip, Entry::Socks5Domain, Entry::HttpConnect], &[Entry::TcpRemote, Entry::Socks5Ip]) }
     } else {
         // 70001 B: nine 8 KiB frames, everywhere; 4198403 B (one window + 4099 B: needs a window update): sub-matrix
-        Bounds { tcp_lens: vec![0, 1, 70001], tcp_len_window: Some(512 * 8192 + 4099), slow_udp: false, concs: vec![1, 3], udp_lens: vec![0, 1, 3, 4, 1400], deadline_s: 30, parallel: args.threads.clamp(1, 8), ipv6_loopback: tcp::ipv6_loopback(), tcp_v6_lens: vec![(1, 1), (70001, 70001)], udp_two_families: udp::ipv6_loopback(), udp_dual_listener_skip: (None, None), udp_dual_listener_lens: Vec::new(), udp_dual_listener_lens_3: Vec::new(), tcp_dual_lens: vec![(4099, 4099)], after_half_lens: vec![1, 512 * 8192 + 4099], after_half_conc3_len: Some(70001) }
+        Bounds { tcp_lens: vec![0, 1, 70001], tcp_len_window: Some(512 * 8192 + 4099), slow_udp: false, concs: vec![1, 3], udp_lens: vec![0, 1, 3, 4, 1400], deadline_s: 30, parallel: args.threads.clamp(1, 8), ipv6_loopback: tcp::ipv6_loopback(), tcp_v6_lens: vec![(1, 1), (70001, 70001)], udp_two_families: udp::ipv6_loopback(), udp_dual_listener_skip: (None, None), udp_dual_listener_lens: Vec::new(), udp_dual_listener_lens_3: Vec::new(), tcp_dual_lens: vec![(4099, 4099)], after_half_lens: vec![1, 512 * 8192 + 4099], after_half_conc3_len: Some(70001), slow_reader_len: 24 << 20, slow_reader_stall_s: 3, slow_reader_points: vec![(Entry::TcpRemote, true, 1), (Entry::Socks5Ip, false, 2)] }
     }
 }
 
@@ -332,7 +367,7 @@ fn dual_matrix(b: &Bounds) -> Vec<Case> {
         for listen in Listen::ALL {
             for entry in tcp::DUAL_ENTRIES {
                 for &(c2t, t2c) in &b.tcp_dual_lens {
-                    v.push(Case::Tcp(TcpCase { entry, c2t, t2c, chunk: DUAL_CHUNK, order: DUAL_ORDER, conc: DUAL_CONC, dual: Some(Dual { name, listen }) }));
+                    v.push(Case::Tcp(TcpCase { entry, c2t, t2c, chunk: DUAL_CHUNK, order: DUAL_ORDER, conc: DUAL_CONC, dual: Some(Dual { name, listen }), slow: None }));
                 }
             }
         }
@@ -340,8 +375,28 @@ fn dual_matrix(b: &Bounds) -> Vec<Case> {
     v
 }
 
+/// The slow-reader sub-matrix: one end does not read for a while, the other end writes (16 KiB
+/// writes) more than all the buffers on the way hold, finishes (half-close / close) and the slow
+/// end then reads everything to the end. The other direction carries `SLOW_REVERSE_LEN` bytes.
+fn slow_matrix(b: &Bounds) -> Vec<TcpCase> {
+    let mut v = Vec::new();
+    for dir in SlowDir::ALL {
+        for &(entry, half, conc) in &b.slow_reader_points {
+            let order = dir.orders()[usize::from(!half)];
+            let (c2t, t2c) = match dir {
+                SlowDir::Download => (tcp::SLOW_REVERSE_LEN, b.slow_reader_len),
+                SlowDir::Upload => (b.slow_reader_len, tcp::SLOW_REVERSE_LEN),
+            };
+            v.push(TcpCase { entry, c2t, t2c, chunk: tcp::SLOW_CHUNK, order, conc, dual: None, slow: Some(Slow { dir, stall_s: b.slow_reader_stall_s }) });
+        }
+    }
+    v
+}
+
 fn matrix(b: &Bounds) -> Vec<Case> {
     let mut v = Vec::new();
+    // they start first and run beside everything else (see `weight` and the pool)
+    v.extend(slow_matrix(b).into_iter().map(Case::Tcp));
     for entry in Entry::ALL {
         for &conc in &b.concs {
             for chunk in Chunk::ALL {
@@ -355,11 +410,11 @@ fn matrix(b: &Bounds) -> Vec<Case> {
                     for &c2t in &lens {
                         if order == Order::Refuse {
                             // no target: the target->client payload does not exist
-                            v.push(Case::Tcp(TcpCase { entry, c2t, t2c: 0, chunk, order, conc, dual: None }));
+                            v.push(Case::Tcp(TcpCase { entry, c2t, t2c: 0, chunk, order, conc, dual: None, slow: None }));
                             continue;
                         }
                         for &t2c in &lens {
-                            v.push(Case::Tcp(TcpCase { entry, c2t, t2c, chunk, order, conc, dual: None }));
+                            v.push(Case::Tcp(TcpCase { entry, c2t, t2c, chunk, order, conc, dual: None, slow: None }));
                         }
                     }
                 }
@@ -371,11 +426,11 @@ fn matrix(b: &Bounds) -> Vec<Case> {
         for order in Order::AFTER_HALF {
             for &c2t in &b.after_half_lens {
                 for &t2c in &b.after_half_lens {
-                    v.push(Case::Tcp(TcpCase { entry, c2t, t2c, chunk: AFTER_HALF_CHUNK, order, conc: 1, dual: None }));
+                    v.push(Case::Tcp(TcpCase { entry, c2t, t2c, chunk: AFTER_HALF_CHUNK, order, conc: 1, dual: None, slow: None }));
                 }
             }
             if let Some(l) = b.after_half_conc3_len {
-                v.push(Case::Tcp(TcpCase { entry, c2t: l, t2c: l, chunk: AFTER_HALF_CHUNK, order, conc: AFTER_HALF_CONC_MANY, dual: None }));
+                v.push(Case::Tcp(TcpCase { entry, c2t: l, t2c: l, chunk: AFTER_HALF_CHUNK, order, conc: AFTER_HALF_CONC_MANY, dual: None, slow: None }));
             }
         }
     }
@@ -383,7 +438,7 @@ fn matrix(b: &Bounds) -> Vec<Case> {
         // target on [::1], named as an IPv6 literal by the entry points that can express one
         for entry in Entry::V6 {
             for &(c2t, t2c) in &b.tcp_v6_lens {
-                v.push(Case::Tcp(TcpCase { entry, c2t, t2c, chunk: V6_CHUNK, order: V6_ORDER, conc: V6_CONC, dual: None }));
+                v.push(Case::Tcp(TcpCase { entry, c2t, t2c, chunk: V6_CHUNK, order: V6_ORDER, conc: V6_CONC, dual: None, slow: None }));
             }
         }
     }
@@ -448,6 +503,8 @@ fn matrix(b: &Bounds) -> Vec<Case> {
 /// Big transfers first (they dominate the wall time), so that the pool stays busy to the end.
 fn weight(c: &Case) -> usize {
     match c {
+        // (they spend their first seconds waiting: right after the real-time UDP scenarios)
+        Case::Tcp(t) if t.slow.is_some() => usize::MAX - 1,
         Case::Tcp(t) => (t.c2t + t.t2c) * t.conc + 1,
         Case::Udp(u) if u.topo.slow() => usize::MAX,
         Case::Udp(_) => usize::MAX / 2,
@@ -458,10 +515,14 @@ fn weight(c: &Case) -> usize {
 // self-test of the oracle against a harness-made relay with injected faults
 // ---------------------------------------------------------------------------------------
 
+/// slow-reader part of the self-test: payload length (more than four socket buffers hold) and stall
+const SELF_TEST_SLOW_LEN: usize = 24 << 20;
+const SELF_TEST_SLOW_STALL_S: u64 = 1;
+
 fn control_self_test() -> Result<(), String> {
     let rt = tokio::runtime::Builder::new_multi_thread().worker_threads(3).thread_name("c01-selftest").enable_all().build().map_err(|e| format!("runtime: {e}"))?;
     let res = rt.block_on(async {
-        let mk = |order, c2t, t2c, conc| TcpCase { entry: Entry::TcpRemote, c2t, t2c, chunk: Chunk::Seven, order, conc, dual: None };
+        let mk = |order, c2t, t2c, conc| TcpCase { entry: Entry::TcpRemote, c2t, t2c, chunk: Chunk::Seven, order, conc, dual: None, slow: None };
         // a faithful relay is indistinguishable from a direct connection: the oracle must be silent
         for order in [Order::ClientHalf, Order::TargetHalf, Order::ClientClose, Order::TargetClose] {
             for (a, b) in [(0usize, 0usize), (1, 1), (70001, 5), (0, 70001)] {
@@ -487,6 +548,29 @@ fn control_self_test() -> Result<(), String> {
                     return Err(format!("oracle did not verify the connections of {}", c.label()));
                 }
             }
+        }
+        // slow reader: a faithful relay under back-pressure is still indistinguishable from a direct
+        // connection; one that cuts a stream short when its queue is full is caught (side by side)
+        let slow = |dir: SlowDir, half: bool| {
+            let (c2t, t2c) = if dir == SlowDir::Download { (tcp::SLOW_REVERSE_LEN, SELF_TEST_SLOW_LEN) } else { (SELF_TEST_SLOW_LEN, tcp::SLOW_REVERSE_LEN) };
+            TcpCase { entry: Entry::TcpRemote, c2t, t2c, chunk: tcp::SLOW_CHUNK, order: dir.orders()[usize::from(!half)], conc: 1, dual: None, slow: Some(Slow { dir, stall_s: SELF_TEST_SLOW_STALL_S }) }
+        };
+        let (down, up, cut) = (slow(SlowDir::Download, true), slow(SlowDir::Upload, false), slow(SlowDir::Download, false));
+        let dl_s = down.deadline_s(20);
+        let (o_down, o_up, o_cut) = tokio::join!(tcp::run_tcp(&Mode::Control(Fault::Faithful), &down, dl_s, 0), tcp::run_tcp(&Mode::Control(Fault::Faithful), &up, dl_s, 0), tcp::run_tcp(&Mode::Control(Fault::TruncateWhenBackedUp), &cut, dl_s, 0));
+        for (c, o) in [(&down, &o_down), (&up, &o_up)] {
+            if !o.failures.is_empty() {
+                return Err(format!("oracle raises an alarm on a faithful relay ({}): {} / {}", c.label(), o.failures[0].key, o.failures[0].desc));
+            }
+            if o.stats.conns_verified != 1 {
+                return Err(format!("oracle did not verify the connections of {}", c.label()));
+            }
+            if o.stats.slow_reader_backed_up != 1 {
+                return Err(format!("{}: the writer was not held back by the slow reader ({} bytes written at the first read): the scenario does not do what it is meant to do", c.label(), o.stats.slow_reader_written_at_first_read_max));
+            }
+        }
+        if !o_cut.failures.iter().any(|f| f.key.starts_with("tcp.data.t2c.truncated.") && f.key.ends_with(SlowDir::Download.key_suffix())) {
+            return Err(format!("oracle misses a relay that cuts a download short when the local client does not read: {:?}", o_cut.failures.iter().map(|f| &f.key).collect::<Vec<_>>()));
         }
         // ... and one that keeps swallowing what the local connection sends is caught (2 s deadline)
         let c = mk(Order::TargetHalfThenClose, 1, 1, 1);
@@ -953,7 +1037,9 @@ pub fn run(args: &Args) -> Report {
         }
         // the real-time scenarios sleep nearly all of their 20+ seconds: they get threads of their
         // own (they are first in the queue), so that `parallel` scenarios that do work stay in flight
-        let n_slow = cases.iter().filter(|c| matches!(c, Case::Udp(u) if u.topo.slow())).count();
+        // (the slow-reader TCP scenarios wait for some seconds before anything moves: up to
+        // `SLOW_READER_THREADS` of them at a time, beside the pool, so that the memory they need stays bounded)
+        let n_slow = cases.iter().filter(|c| matches!(c, Case::Udp(u) if u.topo.slow())).count() + cases.iter().filter(|c| matches!(c, Case::Tcp(t) if t.slow.is_some())).count().min(SLOW_READER_THREADS);
         for w in 0..b.parallel + n_slow {
             let (cases, env, tally, next, iso, confirmed, degraded, rep_m, sums, b, done_cases) = (&cases, &env, &tally, &next, &iso, &confirmed, &degraded, &rep_m, &sums, &b, &done_cases);
             std::thread::Builder::new()
@@ -1063,6 +1149,7 @@ pub fn run(args: &Args) -> Report {
                                         Case::Udp(_) => g.udp_cases_clean += 1,
                                     }
                                     match case {
+                                        Case::Tcp(t) if t.slow.is_some() => g.slow_reader_cases_clean += 1,
                                         Case::Tcp(t) if t.entry.v6literal() => g.v6_cases_clean += 1,
                                         Case::Tcp(t) if t.order.after_half() => g.after_half_cases_clean += 1,
                                         Case::Udp(u) if u.topo.stray().is_some() => g.stray_cases_clean += 1,
@@ -1219,6 +1306,23 @@ pub fn run(args: &Args) -> Report {
         b.after_half_conc3_len.map_or_else(String::new, |l| format!(" + {AFTER_HALF_CONC_MANY} connections x both lengths {l}")),
         AFTER_HALF_CHUNK.name()
     );
+    let slow_cases: Vec<TcpCase> = slow_matrix(&b);
+    let slow_rule = format!(
+        "; plus the slow-reader sub-matrix: direction (download: the target writes {len} bytes and every LOCAL connection waits {stall} s after the entry point's grant before its first read; upload: the local client writes {len} bytes and every TARGET connection waits {stall} s after its accept before its first read) x (entry point, how the writing end finishes, simultaneous connections) in {:?}; the writing end writes at once, in {}, then half-closes (close order {} / {}) or closes both directions (close order {} / {}); the slow end then reads to the end; the other direction carries {} bytes; {len} bytes are more than the socket buffers of the connections on the way and the multiplexer's window of 512 frames hold together, so the writer is held back by the reader (recorded per run: extra.tcp_slow_reader_*); same oracle as everywhere (data equal per connection, true EOF after a half-close, every connection closed before the deadline of {} s = stall + {} s); their violation keys end in {} / {}",
+        b.slow_reader_points.iter().map(|(e, half, conc)| format!("{} {} x{conc}", e.name(), if *half { "half-close" } else { "close" })).collect::<Vec<_>>(),
+        tcp::SLOW_CHUNK.name(),
+        SlowDir::Download.orders()[0].name(),
+        SlowDir::Upload.orders()[0].name(),
+        SlowDir::Download.orders()[1].name(),
+        SlowDir::Upload.orders()[1].name(),
+        tcp::SLOW_REVERSE_LEN,
+        slow_cases.first().map_or(b.deadline_s, |c| c.deadline_s(b.deadline_s)),
+        tcp::SLOW_TRANSFER_S,
+        SlowDir::Download.key_suffix(),
+        SlowDir::Upload.key_suffix(),
+        len = b.slow_reader_len,
+        stall = b.slow_reader_stall_s
+    );
     let v6_rule = if b.ipv6_loopback {
         format!("; plus the IPv6-literal sub-matrix (target listens on [::1]): entry point (remote specification with [::1]:port, SOCKS5 CONNECT with ATYP=4, HTTP CONNECT [::1]:port) x (client->target, target->client) lengths {:?}, {} connection, {}, {}", b.tcp_v6_lens, V6_CONC, V6_CHUNK.name(), V6_ORDER.name())
     } else {
@@ -1263,7 +1367,7 @@ pub fn run(args: &Args) -> Report {
         t
     };
     let stray_rule = format!("; plus SOCKS5 UDP (IPv4 header, domain header) x stray datagram to the relay port from another local socket after the first exchange ({}) with {}-byte payloads, 3 exchanges", Topo::STRAY.iter().filter_map(|t| t.stray()).map(|(d, n)| format!("{n}: {}", vcommon::report::hex(d))).collect::<Vec<_>>().join(", "), udp::STRAY_LEN);
-    rep.rule = format!("complete product, every point enumerated (no sampling): TCP = entry point (7) x connections {:?} x chunking (3) x [close order (4) x client->target length in L x target->client length in L + target-refuses x client->target length in L], where {len_rule}{after_half_rule}{v6_rule}{dual_rule}; UDP = entry (UDP remote, SOCKS5 UDP with IPv4 header, with domain header) x topology (1 client, 3 clients, 1 socket to 2 entry points, 1 client whose payload lengths change from datagram to datagram (len, 3, len+500, 0, len+1); SOCKS5 only: 1 association alternating between 2 targets with the same host string and different ports, and between 2 targets with different host strings 127.0.0.1/127.0.0.2 and the same port) x payload length, 3 request/reply exchanges per leg{stray_rule}{families_rule}{dual_listener_rule}{}; one execution per point (more only after a lost port race or a deadline hit); a case is distinct when its parameter tuple is distinct", b.concs, if b.slow_udp { format!("; plus the real-time scenarios: UDP entry (3) x [steady sender: 1 datagram of {} bytes per second for 2*UDP_PRUNE_TIMEOUT+3 = {} s to a silent target, which then answers the last one | idle: one exchange, {} s of silence, one more exchange | idle gap between one and two prune timeouts: one exchange, {} s of silence, one more exchange from the same socket whose FIRST transmission must be at the target within {} ms]", udp::SLOW_LEN, 2 * udp::prune_timeout().as_secs() + 3, 2 * udp::prune_timeout().as_secs() + 1, udp::prune_timeout().as_secs() + udp::GAP_EXTRA_S, udp::GAP_FIRST_TX_MS) } else { format!("; plus one real-time scenario per UDP entry (3): idle gap between one and two prune timeouts (one exchange, {} s of silence, one more exchange from the same socket whose FIRST transmission must be at the target within {} ms)", udp::prune_timeout().as_secs() + udp::GAP_EXTRA_S, udp::GAP_FIRST_TX_MS) });
+    rep.rule = format!("complete product, every point enumerated (no sampling): TCP = entry point (7) x connections {:?} x chunking (3) x [close order (4) x client->target length in L x target->client length in L + target-refuses x client->target length in L], where {len_rule}{after_half_rule}{slow_rule}{v6_rule}{dual_rule}; UDP = entry (UDP remote, SOCKS5 UDP with IPv4 header, with domain header) x topology (1 client, 3 clients, 1 socket to 2 entry points, 1 client whose payload lengths change from datagram to datagram (len, 3, len+500, 0, len+1); SOCKS5 only: 1 association alternating between 2 targets with the same host string and different ports, and between 2 targets with different host strings 127.0.0.1/127.0.0.2 and the same port) x payload length, 3 request/reply exchanges per leg{stray_rule}{families_rule}{dual_listener_rule}{}; one execution per point (more only after a lost port race or a deadline hit); a case is distinct when its parameter tuple is distinct", b.concs, if b.slow_udp { format!("; plus the real-time scenarios: UDP entry (3) x [steady sender: 1 datagram of {} bytes per second for 2*UDP_PRUNE_TIMEOUT+3 = {} s to a silent target, which then answers the last one | idle: one exchange, {} s of silence, one more exchange | idle gap between one and two prune timeouts: one exchange, {} s of silence, one more exchange from the same socket whose FIRST transmission must be at the target within {} ms]", udp::SLOW_LEN, 2 * udp::prune_timeout().as_secs() + 3, 2 * udp::prune_timeout().as_secs() + 1, udp::prune_timeout().as_secs() + udp::GAP_EXTRA_S, udp::GAP_FIRST_TX_MS) } else { format!("; plus one real-time scenario per UDP entry (3): idle gap between one and two prune timeouts (one exchange, {} s of silence, one more exchange from the same socket whose FIRST transmission must be at the target within {} ms)", udp::prune_timeout().as_secs() + udp::GAP_EXTRA_S, udp::GAP_FIRST_TX_MS) });
     rep.bounds.insert("tcp_entry_points".into(), json!(Entry::ALL.iter().map(|e| e.name()).collect::<Vec<_>>()));
     rep.bounds.insert("ipv6_loopback".into(), json!(b.ipv6_loopback));
     rep.bounds.insert("tcp_ipv6_literal_entry_points".into(), json!(if b.ipv6_loopback { Entry::V6.iter().map(|e| e.name()).collect::<Vec<_>>() } else { Vec::new() }));
@@ -1300,6 +1404,14 @@ pub fn run(args: &Args) -> Report {
     rep.bounds.insert("tcp_after_half_close_payload_length_3_connections".into(), json!(b.after_half_conc3_len));
     rep.bounds.insert("tcp_after_half_close_filler".into(), json!(format!("{} B every {} ms; the closing end reads up to {} B of it, for at most {} ms", tcp::FILLER_CHUNK, tcp::FILLER_PAUSE.as_millis(), tcp::AFTER_HALF_FILLER_READ, tcp::AFTER_HALF_LINGER.as_millis())));
     rep.bounds.insert("tcp_after_half_close_cases".into(), json!(cases.iter().filter(|c| matches!(c, Case::Tcp(t) if t.order.after_half())).count()));
+    rep.bounds.insert("tcp_slow_reader_directions".into(), json!(SlowDir::ALL.iter().map(|d| d.name()).collect::<Vec<_>>()));
+    rep.bounds.insert("tcp_slow_reader_payload_length".into(), json!(b.slow_reader_len));
+    rep.bounds.insert("tcp_slow_reader_reverse_payload_length".into(), json!(tcp::SLOW_REVERSE_LEN));
+    rep.bounds.insert("tcp_slow_reader_stall_s".into(), json!(b.slow_reader_stall_s));
+    rep.bounds.insert("tcp_slow_reader_chunking".into(), json!(tcp::SLOW_CHUNK.name()));
+    rep.bounds.insert("tcp_slow_reader_entry_finish_connections".into(), json!(b.slow_reader_points.iter().map(|(e, half, conc)| json!([e.name(), if *half { "half-close" } else { "close" }, conc])).collect::<Vec<_>>()));
+    rep.bounds.insert("tcp_slow_reader_deadline_s".into(), json!(slow_cases.first().map_or(b.deadline_s, |c| c.deadline_s(b.deadline_s))));
+    rep.bounds.insert("tcp_slow_reader_cases".into(), json!(slow_cases.iter().map(TcpCase::label).collect::<Vec<_>>()));
     rep.bounds.insert("udp_entries".into(), json!(UKind::ALL.iter().map(|e| e.name()).collect::<Vec<_>>()));
     rep.bounds.insert("udp_topologies".into(), json!(Topo::ALL.iter().map(|e| e.name()).collect::<Vec<_>>()));
     rep.bounds.insert("udp_payload_lengths".into(), json!(b.udp_lens));
@@ -1343,6 +1455,9 @@ pub fn run(args: &Args) -> Report {
     rep.extra.insert("tcp_closed_after_half_close_then_close".into(), json!(sums.tcp.after_halfclose_closed));
     rep.extra.insert("tcp_closed_after_half_close_then_close_filler_read_before_close".into(), json!(sums.tcp.after_halfclose_filler_read));
     rep.extra.insert("tcp_closed_after_half_close_then_close_write_error_kinds".into(), json!(sums.tcp.after_halfclose_end_kinds));
+    rep.extra.insert("tcp_slow_reader_cases_clean".into(), json!(sums.slow_reader_cases_clean));
+    rep.extra.insert("tcp_slow_reader_cases_verified_with_every_writer_held_back_at_first_read".into(), json!(sums.tcp.slow_reader_backed_up));
+    rep.extra.insert("tcp_slow_reader_bytes_written_per_connection_at_first_read_min_max".into(), json!([sums.tcp.slow_reader_written_at_first_read_min, sums.tcp.slow_reader_written_at_first_read_max]));
     rep.extra.insert("refuse_granted_then_closed".into(), json!(sums.tcp.refuse_granted_then_closed));
     rep.extra.insert("refuse_local_end_eof".into(), json!(sums.tcp.refuse_end_eof));
     rep.extra.insert("refuse_local_end_reset".into(), json!(sums.tcp.refuse_end_reset));
@@ -1374,7 +1489,9 @@ pub fn run(args: &Args) -> Report {
             rep.sample(c.to_json());
         }
     }
-    let picks: [&dyn Fn(&Case) -> bool; 11] = [
+    let picks: [&dyn Fn(&Case) -> bool; 13] = [
+        &|c| matches!(c, Case::Tcp(t) if t.slow.is_some_and(|s| s.dir == SlowDir::Download) && t.entry == Entry::TcpRemote && t.conc == 1),
+        &|c| matches!(c, Case::Tcp(t) if t.slow.is_some_and(|s| s.dir == SlowDir::Upload) && t.entry == Entry::Socks5Ip),
         &|c| matches!(c, Case::Udp(u) if u.kind == UKind::SocksIp && u.topo == Topo::DualV4 && u.size == 3),
         &|c| matches!(c, Case::Tcp(t) if t.order == Order::TargetHalfThenClose && t.entry == Entry::Socks5Ip && t.conc == 1 && t.c2t == 1 && t.t2c > 1),
         &|c| matches!(c, Case::Udp(u) if u.topo == Topo::TwoFamilies),
@@ -1397,6 +1514,7 @@ pub fn run(args: &Args) -> Report {
     rep.assumptions.push("quick tier: 70001-byte streams (nine 8 KiB frames) everywhere; the stream of one receive window of 8 KiB frames plus 4099 bytes (the sender needs at least one window update) only with 1 connection and one-write chunking (every entry point, every close order); thorough tier: three windows and 4099 bytes in every combination, 5 simultaneous connections and more datagram lengths".into());
     rep.assumptions.push("how a read ends after BOTH directions are finished (EOF or reset) is recorded, not judged; a half-close must arrive as a true EOF and the data sent after it must arrive completely".into());
     rep.assumptions.push(format!("close-after-half-close orders: only 'the still-sending end's writes begin to fail before the deadline' is judged about the close (which error, and whether a reset or an EOF came first, is recorded in extra.tcp_closed_after_half_close_then_close_write_error_kinds); the closing end closes after the other end's payload and {} filler bytes or {} ms, whichever comes first (extra.tcp_closed_after_half_close_then_close_filler_read_before_close counts the closes that had read filler); the filler received must be a prefix of the filler sent", tcp::AFTER_HALF_FILLER_READ, tcp::AFTER_HALF_LINGER.as_millis()));
+    rep.assumptions.push(format!("slow-reader sub-matrix: the stall is a fixed time ({} s), not 'until the writer blocks'; that the writers were in fact held back when the reading began (payload bytes left to write on every connection) is recorded (extra.tcp_slow_reader_cases_verified_with_every_writer_held_back_at_first_read, extra.tcp_slow_reader_bytes_written_per_connection_at_first_read_min_max) and a run in which a clean scenario was not like that is vacuous (a machinery error); the socket buffer sizes are the kernel's (no SO_SNDBUF / SO_RCVBUF is set); only the order 'first read after the stall' is imposed on the reader, how fast it reads afterwards is whatever the runtime gives", b.slow_reader_stall_s));
     rep.assumptions.push("target refuses: a SOCKS/HTTP success answer followed by a close, a refusal answer, or a close before the answer all count as 'closed rather than left hanging'".into());
     rep.assumptions.push("the address inside the SOCKS5 UDP reply header is recorded (extra.socks5_udp_header_addr_*), not judged: the statement only demands a well-formed header that can be stripped".into());
     rep.assumptions.push("loopback only (127.0.0.1, a Unix socket and, for the targets of the IPv6-literal, dual-stack-name and two-address-families sub-matrices where it exists, [::1]); plain ws:// between client and server; keep-alive off; fresh client+server per matrix point".into());
@@ -1424,6 +1542,9 @@ pub fn run(args: &Args) -> Report {
         }
         if sums.tcp.after_halfclose_closed == 0 && cases.iter().any(|c| matches!(c, Case::Tcp(t) if t.order.after_half())) {
             why.push("no close after a half-close was observed");
+        }
+        if sums.slow_reader_cases_clean > sums.tcp.slow_reader_backed_up {
+            why.push("a slow-reader scenario passed although a writing end had written its whole payload before the slow end began to read (the buffers on the way swallowed it)");
         }
         if sums.tcp.refuse_granted_then_closed + sums.tcp.refuse_refused_reply + sums.tcp.refuse_closed_before_reply == 0 {
             why.push("no refusal was observed");
